@@ -29,6 +29,10 @@ def types_for(tier):
     extra = [t for t in universe.universe(tier) if xt.has_refs(t)]
     if tier == "quick":
         extra = extra[::3]
+    # referents and by-value parts that are 3-D arrays of dynamically sized items in the two CYCLIC axis orders (a copy reaches
+    # them as views; their offset tables are stored in memory order)
+    A1, A2 = xt.Arr(xt.STR, (2, 2, 2), (1, 2, 0)), xt.Arr(xt.STR, (2, 3, 2), (2, 0, 1))
+    extra = [xt.St(xt.Ref(A1), xt.Sc("i8")), xt.St(xt.Ref(universe.S_S), A2), xt.St(xt.URef(universe.S_S, A2), xt.Sc("i64")), xt.Arr(xt.Ref(A2), (2,))] + extra
     seen = set(ts)
     for t in extra:
         if t not in seen:
@@ -288,7 +292,19 @@ def run_case(t, vmode, dest, tier, res, seed):
         res.skipped["source-construct(C01's business):" + common.exc_failure(e)] += 1
         return
     try:
-        if not xt.veq(xt.read(t, p.src), v):
+        gs = xt.read(t, p.src)
+        if not xt.veq(gs, v):
+            # the source does not read what it was given (C01's business); the copy must still read what the SOURCE reads
+            if p.copy_error is None:
+                try:
+                    gc = xt.read(t, p.copy)
+                except Exception:
+                    gc = None
+                if gc is not None and not xt.veq(gc, gs):
+                    res.cases += 1
+                    res.outcomes["copy-differs"] += 1
+                    res.violations.append(common.violation("C09.equal", "copy-differs-from-source-as-read", f, cid, "first difference at %r: %s" % xt.vdiff(gc, gs)))
+                    return
             res.skipped["source-readback(C01's business)"] += 1
             return
     except Exception as e:
